@@ -203,16 +203,29 @@ def run_case(case):
     spec = case["mesh"]
     m = build_mesh(spec)
     prepare(m, case)
+    # the neighbour slots / element tables are read from a second mesh object built from the same data, so the tree
+    # under test runs on cold connectivity caches
+    m_obs = build_mesh(spec)
     kind = case["kind"]
     op = case["op"]
     unstable = []
     ro = int(case.get("read_order", 0))
+    calls = max(1, int(case.get("calls", 1)))
+
+    def again(obj):
+        # compute() called again, through both public ways
+        for j in range(calls - 1):
+            if (ro + j) % 2 == 0:
+                obj = obj()
+            else:
+                obj.compute()
+        return obj
     excl = case.get("excl")
     excl_set = None if excl is None else set(excl)
     res = {"op": op, "kind": kind}
-    res.update(tables(m, spec))
+    res.update(tables(m_obs, spec))
     if op == "tree":
-        raw, poly = raw_slots(m, spec, kind, excl_set, True)
+        raw, poly = raw_slots(m_obs, spec, kind, excl_set, True)
         res.update({"raw": raw, "polyline": poly, "n": len(raw)})
         try:
             if kind == "edge":
@@ -222,12 +235,13 @@ def run_case(case):
                 t = T.FaceSpanningTree(m, case["root"], excl_set)()
             else:
                 t = T.CellSpanningTree(m, case["root"], excl_set)()
+            t = again(t)
             res["err"] = None
             res.update(tree_obs(t, ro, unstable))
         except (IndexError, KeyError) as ex:
             res["err"] = type(ex).__name__
     elif op == "forest":
-        raw, poly = raw_slots(m, spec, kind, excl_set if kind == "face" else None, True)
+        raw, poly = raw_slots(m_obs, spec, kind, excl_set if kind == "face" else None, True)
         res.update({"raw": raw, "polyline": poly, "n": len(raw)})
         if kind == "edge":
             f = T.EdgeSpanningForest(m)()
@@ -235,6 +249,7 @@ def run_case(case):
             f = T.FaceSpanningForest(m, excl_set)()
         else:
             f = T.CellSpanningForest(m)()
+        f = again(f)
         res["err"] = None
         res.update(forest_obs(f, ro, unstable))
     elif op == "kruskal":
@@ -242,7 +257,7 @@ def run_case(case):
         poly = isinstance(m, PolyLine)
         res["polyline"] = poly
         res["n"] = len(m.vertices)
-        res["bord"] = [False if poly else bool(m.is_edge_on_border(int(a), int(b))) for a, b in m.edges]
+        res["bord"] = [False if poly else bool(m_obs.is_edge_on_border(int(a), int(b))) for a, b in m_obs.edges]
         w = case["weights"]
         if isinstance(w, dict):
             vals = w["values"]
@@ -258,6 +273,7 @@ def run_case(case):
         try:
             t = T.EdgeMinimalSpanningTree(m, case["root"], avoid_boundary=bool(case.get("avoid_boundary", False)),
                                           weights=weights)()
+            t = again(t)
             res["err"] = None
             res.update(tree_obs(t, ro, unstable))
         except (IndexError, KeyError) as ex:
